@@ -9,6 +9,9 @@ pub mod mq_spmc;
 pub mod mutex;
 pub mod sem;
 pub mod syncflag;
+pub mod condvar;
+pub mod barrier;
+pub mod waitgroup;
 
 /// a det-mode scenario ready to run
 pub struct Built {
@@ -33,12 +36,15 @@ pub fn build_det(family: &str, rng: &mut Rng, tier: u32) -> Option<Built> {
         "mq_mpsc" => Some(mq_mpsc::build(rng, tier)),
         "mq_spsc" => Some(mq_spsc::build(rng, tier)),
         "mq_spmc" => Some(mq_spmc::build(rng, tier)),
+        "condvar" => Some(condvar::build(rng, tier)),
+        "barrier" => Some(barrier::build(rng, tier)),
+        "waitgroup" => Some(waitgroup::build(rng, tier)),
         _ => None,
     }
 }
 
 pub fn det_families() -> Vec<&'static str> {
-    vec!["ch_mpsc", "mutex", "sem", "syncflag", "mq_mpsc", "mq_spsc", "mq_spmc"]
+    vec!["ch_mpsc", "mutex", "sem", "syncflag", "mq_mpsc", "mq_spsc", "mq_spmc", "condvar", "barrier", "waitgroup"]
 }
 
 pub mod live_park;
